@@ -305,6 +305,13 @@ def run_case_b(case):
             elif not calls:
                 violate('no-pass-computed', i, op, 'cycle cells evaluated', {'value': val})
                 break
+            bad = [(t, x) for t, xs in calls.items() for x in xs
+                   if isinstance(x, bool) or not isinstance(x, (int, float))]
+            if bad:
+                # (a cell of a linear system over numbers was calculated to something else)
+                violate('not-a-number', i, op, 'numbers in every pass', values.jsonable(bad[0][1]),
+                        probe=bad[0][0])
+                break
             if passes < iterations:
                 # stopped early: nothing moved by more than the tolerance in the last pass
                 state['nontrivial'] = True
